@@ -24,4 +24,6 @@ CONTROLS = [
     dict(name="'.' added to the expression markers (every float has one)",
          edits=[("cdd/shared/defaults_utils.py", 'partial(contains, frozenset(("*", "^", "&", "|", "$", "@", "!"))),', 'partial(contains, frozenset(("*", ".", "^", "&", "|", "$", "@", "!"))),')],
          expect=r"structural/_parse_out_default_and_doc/expression-markers-disjoint-from-number-repr"),
+    dict(name="BENIGN: the expression markers are kept in a tuple, not a frozenset", benign=True,
+         edits=[("cdd/shared/defaults_utils.py", 'partial(contains, frozenset(("*", "^", "&", "|", "$", "@", "!"))),', 'partial(contains, ("*", "^", "&", "|", "$", "@", "!")),')]),
 ]
